@@ -97,6 +97,8 @@ pub fn judge_plain(input: &[u8], acc: &mut Acc) {
     if r2.is_ok() && r1.is_ok() {
         acc.violation("both-versions-accept", entry, "never both".into(), format!("v2 {:?} / v1 {:?}", r2, r1));
     }
+    // completeness according to the dedicated parsers' own results (not through the wrapper under test)
+    let inner_incomplete = if r2.is_ok() { false } else if r2.is_incomplete() { true } else { r1.is_incomplete() };
     let (expect, oc): (HeaderResult, &'static str) = if r2.is_ok() {
         (HeaderResult::V2(r2), "v2 accepts")
     } else if r2.is_incomplete() {
@@ -131,7 +133,7 @@ pub fn judge_plain(input: &[u8], acc: &mut Acc) {
     };
     acc.class(oc, ic);
     // completeness delegation of the wrapper
-    let (exp_inc, got_inc) = (expect.is_incomplete(), ra.is_incomplete());
+    let (exp_inc, got_inc) = (inner_incomplete, ra.is_incomplete());
     if ra != expect {
         let kind = match (&ra, &expect) {
             (HeaderResult::V1(_), HeaderResult::V2(_)) => "text-verdict-for-possible-v2",
